@@ -1,5 +1,5 @@
 /- L0 facts about the accessors, Display and Default of PercentagePriceOscillator (split from Lemmas/PercentagePriceOscillator.lean so that a change to one method only invalidates the facts about that method) -/
-import TaRs.Lemmas.PercentagePriceOscillator
+import TaRs.Lemmas.Core.PercentagePriceOscillator
 import TaRs.Lemmas.Misc.ExponentialMovingAverage
 set_option linter.unusedSectionVars false
 namespace TaRs.Gen.PercentagePriceOscillator
